@@ -214,14 +214,15 @@ def mako_run(src, mode, uri, strict=False):
             handled.append(error)
             return declined
         kw["error_handler"] = eh3
-    if mode == "handler_declines_baseexc":
+    if mode in ("handler_declines_baseexc", "error_handler_baseexc", "context_baseexc"):
         pre = SystemExit(3) if len(src) % 2 else KeyboardInterrupt("stop", 2)
         ctx["boom"] = lambda cls=None, msg="boom": (_ for _ in ()).throw(pre)
 
         def eh2(context, error):
             handled.append(error)
-            return False
-        kw["error_handler"] = eh2
+            return mode == "error_handler_baseexc"
+        if mode != "context_baseexc":
+            kw["error_handler"] = eh2
     # format_exceptions: all four combinations of render() / render_unicode() and with / without an inherited layout
     variant = (len(src) % 4) if mode == "format_exceptions" else 0
     try:
@@ -236,7 +237,7 @@ def mako_run(src, mode, uri, strict=False):
             t = Template(src, uri=uri, imports=tenv.IMPORTS, **kw)
     except Exception as e:
         return ("compile-exc", type(e).__name__, str(e)[:200])
-    if mode in ("render", "error_handler", "format_exceptions", "handler_declines_baseexc", "handler_declines"):
+    if mode in ("render", "error_handler", "format_exceptions", "handler_declines_baseexc", "handler_declines", "error_handler_baseexc"):
         try:
             out = t.render(**ctx) if variant & 1 else t.render_unicode(**ctx)
             if isinstance(out, bytes):
@@ -257,13 +258,15 @@ def mako_run(src, mode, uri, strict=False):
             except Exception as e:
                 r.append(("exc", type(e).__name__))
         return ("second", r)
-    if mode == "context":
+    if mode in ("context", "context_baseexc"):
         buf = FastEncodingBuffer()
         c = Context(buf, **ctx)
         exc = None
         try:
             t.render_context(c)
-        except Exception as e:
+        except BaseException as e:
+            if isinstance(e, trun._Timeout) or (mode == "context" and not isinstance(e, Exception)):
+                raise
             exc = e
         depth = len(c._buffer_stack)
         cdepth = len(c.caller_stack)
@@ -334,6 +337,17 @@ def check_case(case, ev=None, want_caught=False):
             raise Failure(case, "a SystemExit/KeyboardInterrupt raised in the template was swallowed: %r%s" % (got[:2], tag), "baseexc:swallowed")
         if got[1] is not got[2]:
             raise Failure(case, "error_handler returned False but %r propagated instead of the original %r%s" % (got[1], got[2], tag), "baseexc:not-same-object")
+    elif mode == "error_handler_baseexc":
+        # an error_handler that accepts whatever it is given, a KeyboardInterrupt / SystemExit included: the render returns the
+        # direct output so far, as for any other exception
+        if got[0] != "ok":
+            raise Failure(case, "error_handler returned True but render raised %r%s" % (got[1], tag), "error_handler:raised")
+        if got[1] != ref[2]:
+            raise Failure(case, "with error_handler->True for a %s mako returned %r, expected the direct output so far %r%s"
+                          % (type(got[3]).__name__, got[1], ref[2], tag), "error_handler:output-differs")
+        # (for an exception that is not an Exception the handler is given its class: what it receives is not part of the statement)
+        if len(got[2]) != 1 or (got[2][0] is not got[3] and got[2][0] is not type(got[3])):
+            raise Failure(case, "error_handler calls: %r%s" % (got[2], tag), "error_handler:calls")
     elif mode == "format_exceptions":
         if got[0] != "ok":
             raise Failure(case, "format_exceptions set but render raised %r%s" % (got[1], tag), "format_exceptions:raised")
@@ -348,8 +362,11 @@ def check_case(case, ev=None, want_caught=False):
         for k, one in enumerate(r):
             if one != exp:
                 raise Failure(case, "render #%d of the same Template gave %r, expected %r%s" % (k + 1, one, exp, tag), "second-render-differs")
-    elif mode == "context":
+    elif mode in ("context", "context_baseexc"):
         _, exc, value, depth, cdepth, nextc, pre = got
+        if mode == "context_baseexc" and exc is not pre:
+            raise Failure(case, "a %s raised in the template did not propagate out of render_context as the same object: %r%s"
+                          % (type(pre).__name__, exc, tag), "baseexc:not-same-object")
         if ref[0] == "ok":
             if exc is not None:
                 raise Failure(case, "reference renders but render_context raised %r%s" % (exc, tag), "handled:raised:" + type(exc).__name__)
@@ -442,7 +459,7 @@ def run_subject(prog, ev, fails, quick):
         nt = h.pop("nt")
         cases.append((dict(h, mode=hmodes[i % len(hmodes)]), nt))
     for (rpath, ridx, kind, ranc) in unhandled:
-        for mode in ("render", "context", "error_handler", "format_exceptions", "second", "handler_declines") + (("handler_declines_baseexc",) if kind in ("expr", "arg") else ()):
+        for mode in ("render", "context", "error_handler", "format_exceptions", "second", "handler_declines") + (("handler_declines_baseexc", "error_handler_baseexc", "context_baseexc") if kind in ("expr", "arg") else ()):
             cases.append(({"prog": prog, "rpath": rpath, "ridx": ridx, "kind": kind, "hpath": None, "hidx": None, "mode": mode},
                           sum(1 for a in ranc if a in NEST) >= 2))
     for case, nt in cases:
@@ -504,7 +521,87 @@ def _minimise(f):
     return f
 
 
+# ---- a def rendered on its own (get_def) under the template's error handling options --------------------------------------
+GETDEF_SRC = ('<%def name="foo(x)">before ${x} ${boom()} after</%def>'
+              '<%def name="outer()">outer-start <%def name="inner()" buffered="True">partial ${boom()}</%def>${inner()} end</%def>'
+              '<%def name="fine(x)">fine ${x}</%def>body')
+
+
+def check_getdef_handlers(ev, fails):
+    """get_def(name).render*() honours error_handler / format_exceptions like a render of the whole template: the handler is
+    consulted once with the exception; accepted -> the direct output so far followed by what the handler wrote; declined ->
+    the same exception object propagates.  Expectations by construction."""
+    from mako.lookup import TemplateLookup
+    from mako.template import Template
+
+    k = 0
+    for via in ("Template", "lookup"):
+        for accept in (True, False):
+            for dname, dkw, so_far in (("foo", {"x": 2}, "before 2 "), ("outer", {}, "outer-start "), ("fine", {"x": 3}, None)):
+                for how in ("render_unicode", "render"):
+                    k += 1
+                    seen = []
+                    pre = tenv.Boom("prebuilt")
+
+                    def handler(context, error):
+                        seen.append(error)
+                        if accept:
+                            context.write("[handled %s]" % type(error).__name__)
+                        return accept
+
+                    def boom():
+                        raise pre
+
+                    if via == "Template":
+                        t = Template(GETDEF_SRC, uri="/c13gd_%d.html" % k, error_handler=handler)
+                    else:
+                        lk = TemplateLookup(error_handler=handler)
+                        lk.put_string("/c13gd_%d.html" % k, GETDEF_SRC)
+                        t = lk.get_template("/c13gd_%d.html" % k)
+                    case = {"part": "getdef-handler", "via": via, "accept": accept, "def": dname, "how": how}
+                    try:
+                        got = ("ok", getattr(t.get_def(dname), how)(boom=boom, **dkw))
+                    except BaseException as e:  # noqa: BLE001
+                        got = ("exc", e)
+                    if so_far is None:
+                        want_ok, want_calls = "fine 3", 0
+                    else:
+                        want_ok, want_calls = (so_far + "[handled Boom]") if accept else None, 1
+                    problem = None
+                    if want_ok is not None:
+                        if got != ("ok", want_ok):
+                            problem = "expected %r, got %r" % (want_ok, got)
+                    elif got[0] != "exc" or got[1] is not pre:
+                        problem = "the handler declined: expected the original exception object to propagate, got %r" % (got,)
+                    if problem is None and (len(seen) != want_calls or (seen and seen[0] is not pre)):
+                        problem = "error_handler consulted %d time(s) with %r, expected %d with the exception raised" % (len(seen), seen, want_calls)
+                    if problem:
+                        f = Failure(case, "%s(error_handler=..).get_def(%r).%s(): %s\n--- source ---\n%s" % (via, dname, how, problem, GETDEF_SRC),
+                                    "getdef:error_handler")
+                        fails.setdefault(f.key, f)
+                    ev.case(key=["getdef-handler", via, accept, dname, how], nontrivial=so_far is not None, labels=("getdef-handler",))
+    # format_exceptions: the def rendered on its own gives an error page naming the exception
+    t = Template(GETDEF_SRC, uri="/c13gdf.html", format_exceptions=True)
+
+    def boom2():
+        raise tenv.Boom("page")
+    try:
+        page = t.get_def("foo").render_unicode(x=1, boom=boom2)
+    except BaseException as e:  # noqa: BLE001
+        page = "RAISED %r" % (e,)
+    if "Boom" not in page or page.startswith("RAISED"):
+        f = Failure({"part": "getdef-handler", "format_exceptions": True}, "format_exceptions=True, get_def('foo').render_unicode(): expected an error page "
+                    "naming Boom, got %r" % page[:200], "getdef:format_exceptions")
+        fails.setdefault(f.key, f)
+    ev.case(key=["getdef-handler", "format_exceptions"], nontrivial=True, labels=("getdef-handler",))
+
+
 def run(ctx):
+    fails = {}
+    core.setup_repo()
+    check_getdef_handlers(ctx.ev, fails)
+    for f in fails.values():
+        ctx.fail(f)
     n = ctx.pick(16, 160)
     ctx.pmap(shard, [(ctx.shard_seed(i), n, ctx.quick) for i in range(16)])
 
@@ -515,6 +612,10 @@ def classify(f):
 
 def replay(case):
     core.setup_repo()
+    if case.get("part") == "getdef-handler":
+        fails = {}
+        check_getdef_handlers(core.Evidence(), fails)
+        return next((f for f in fails.values() if f.case == case), None)
     try:
         check_case(case)
     except Failure as f:
